@@ -515,7 +515,10 @@ class NetworkServiceAccessPoint(ServiceAccessPoint, Server, DebugContents):
                 NetworkServiceAccessPoint._warning("    - path error (3)")
                 return
 
+            # a router bound without an address, bind(s, net, None), has no
+            # station of its own for the message to be meant for
             processLocally = (npdu.npduDADR.addrNet == self.local_adapter.adapterNet) \
+                and (self.local_adapter.adapterAddr is not None) \
                 and (npdu.npduDADR.addrAddr == self.local_adapter.adapterAddr.addrAddr)
             forwardMessage = not processLocally
 
